@@ -1,8 +1,104 @@
 ------------------------------ MODULE TextSem ------------------------------
-\* C19: :-soup-contains / :-soup-contains-own. s = [k |-> "contains", vals |-> Seq(Str), own |-> BOOLEAN]
-\* STUB - to be filled in.  Every operator other than the entry point must carry a module-specific
-\* prefix, because CssDecl EXTENDS this module together with its siblings (shared name space).
+\* C19 (R stratum): which character data the text pseudo-classes see.
+\*   s = [k |-> "contains", vals |-> Seq(Str), own |-> BOOLEAN]   (optional field alt |-> BOOLEAN, below)
+\*   :-soup-contains(t1, .., tn)      some ti occurs in the concatenation, in document order, of the
+\*                                    text nodes among the descendants of the element
+\*   :-soup-contains-own(t1, .., tn)  some ti occurs within one single text node that is a direct child
+\* Only nodes of kind "t" are text: comments "c", CDATA "cd", processing instructions "pi", doctypes "dt"
+\* and declarations "dc" never are.  In HTML documents (Dom!IsHtml: HTML or XHTML) the content of an
+\* HTML iframe element is another document: it is cut out of the text of every element the iframe is
+\* nested in.  In XML documents that are not XHTML there is no such cut.
+\*
+\* The property text speaks of a *nested* iframe and leaves open what an iframe element itself sees
+\* when it is the subject.  The specification is therefore parameterised: selfcut = TRUE (the reading
+\* used unless the selector record says otherwise: an iframe has no content of its own in the host
+\* document, as in a browser DOM) or selfcut = FALSE (record field alt = TRUE: only iframes strictly
+\* below the subject are cut).  Conformance checks accept either reading for iframe subjects and
+\* record which one the code follows.
+\*
+\* Every operator other than ContainsHolds is prefixed Tx: CssDecl EXTENDS this module together with
+\* its siblings (shared name space).
 EXTENDS Integers, Sequences, FiniteSets, Str, Dom
 
-ContainsHolds(d, s, i) == FALSE
+\* increasing sequence of a finite set of node ids = document order
+RECURSIVE TxSeqOf(_)
+TxSeqOf(S) == IF S = {} THEN <<>> ELSE LET m == Min(S) IN <<m>> \o TxSeqOf(S \ {m})
+
+\* the elements on the path from node j up to element i: those strictly between, and i itself
+\* when selfcut
+TxPath(d, i, j, selfcut) == {k \in Anc(d, j) : i \in Anc(d, k) \/ (selfcut /\ k = i)}
+\* j lies inside a nested browsing context as seen from i
+TxHidden(d, i, j, selfcut) == IsHtml(d) /\ \E k \in TxPath(d, i, j, selfcut) : IsIframe(d, k)
+
+\* text nodes that make up the text of element i, as a set and in document order
+TxTextNodesR(d, i, selfcut) == {j \in Desc(d, i) : IsText(d, j) /\ ~TxHidden(d, i, j, selfcut)}
+TxOwnNodesR(d, i, selfcut) == {j \in Children(d, i) : IsText(d, j) /\ ~TxHidden(d, i, j, selfcut)}
+TxTexts(d, ids) == [n \in 1..Len(ids) |-> d.text[ids[n]]]
+
+\* the concatenation for the descendant form; the pieces (NOT joined) for the -own form
+TxTextOfR(d, i, selfcut) == Concat(TxTexts(d, TxSeqOf(TxTextNodesR(d, i, selfcut))))
+TxOwnTextsR(d, i, selfcut) == TxTexts(d, TxSeqOf(TxOwnNodesR(d, i, selfcut)))
+TxTextOf(d, i) == TxTextOfR(d, i, TRUE)
+TxOwnTexts(d, i) == TxOwnTextsR(d, i, TRUE)
+
+\* one needle.  The empty needle occurs in every string, the empty concatenation included; for the
+\* -own form there must still be a text child for it to occur in.
+TxDescHas(d, i, v, selfcut) == Contains(TxTextOfR(d, i, selfcut), v)
+TxOwnHas(d, i, v, selfcut) ==
+    LET own == TxOwnTextsR(d, i, selfcut) IN \E m \in 1..Len(own) : Contains(own[m], v)
+
+TxSelfCut(s) == ~("alt" \in DOMAIN s /\ s.alt)
+
+\* entry point used by CssDecl!MatchS: any-of over the needle list
+ContainsHolds(d, s, i) ==
+    \E n \in 1..Len(s.vals) :
+        IF s.own THEN TxOwnHas(d, i, s.vals[n], TxSelfCut(s)) ELSE TxDescHas(d, i, s.vals[n], TxSelfCut(s))
+
+\* elements on which the two readings can differ: HTML iframes with some text below them
+TxUndecided(d) == {i \in Elems(d) : IsHtml(d) /\ IsIframe(d, i) /\ \E j \in Desc(d, i) : IsText(d, j)}
+
+\* ---- design-level theorems (checked by TLC as INVARIANTs of the MC_C19_* models) -------------
+\* T1  a needle found in one own text node is found in the descendant text (own pieces are part
+\*     of the concatenation, whatever the iframe situation)
+TxThOwnImpliesDesc(d, needles) ==
+    \A i \in Elems(d) : \A v \in needles : \A c \in BOOLEAN :
+        TxOwnHas(d, i, v, c) => TxDescHas(d, i, v, c)
+
+\* T2  a needle list is the disjunction of its members (any-of, monotonic in the list)
+TxThAnyOf(d, needles) ==
+    \A i \in Elems(d) : \A v \in needles : \A w \in needles : \A o \in BOOLEAN :
+        ContainsHolds(d, [k |-> "contains", vals |-> <<v, w>>, own |-> o], i)
+          = (ContainsHolds(d, [k |-> "contains", vals |-> <<v>>, own |-> o], i)
+             \/ ContainsHolds(d, [k |-> "contains", vals |-> <<w>>, own |-> o], i))
+
+\* T3  the empty needle: always for the descendant form, exactly "has a (visible) text child" for -own
+TxThEmptyNeedle(d) ==
+    \A i \in Elems(d) : /\ TxDescHas(d, i, <<>>, TRUE)
+                        /\ TxOwnHas(d, i, <<>>, TRUE) = (TxOwnNodesR(d, i, TRUE) # {})
+
+\* T4  the set-based definition of the text agrees with the structural recursion over child rows:
+\*     text child -> its data, element child -> its text (nothing for an HTML iframe in an HTML
+\*     document), any other node -> nothing
+RECURSIVE TxStructText(_, _)
+TxStructText(d, i) ==
+    LET ch == TxSeqOf(Children(d, i))
+        piece(c) == IF IsText(d, c) THEN d.text[c]
+                    ELSE IF IsEl(d, c) /\ ~(IsHtml(d) /\ IsIframe(d, c)) THEN TxStructText(d, c)
+                    ELSE <<>>
+    IN Concat([n \in 1..Len(ch) |-> piece(ch[n])])
+TxThStructural(d) ==
+    \A i \in Elems(d) : /\ TxTextOfR(d, i, FALSE) = TxStructText(d, i)
+                        /\ TxTextOfR(d, i, TRUE) = IF IsHtml(d) /\ IsIframe(d, i) THEN <<>> ELSE TxStructText(d, i)
+
+\* T5  the joined own text is a different thing: joining can only add matches, and it does add
+\*     them exactly when a needle spans a boundary (stated as the inclusion only)
+TxThJoinWeaker(d, needles) ==
+    \A i \in Elems(d) : \A v \in needles :
+        TxOwnHas(d, i, v, TRUE) => Contains(Concat(TxOwnTextsR(d, i, TRUE)), v)
+
+\* T6  the two readings differ only on TxUndecided
+TxThReadings(d, needles) ==
+    \A i \in Elems(d) \ TxUndecided(d) : \A v \in needles :
+        /\ TxDescHas(d, i, v, TRUE) = TxDescHas(d, i, v, FALSE)
+        /\ TxOwnHas(d, i, v, TRUE) = TxOwnHas(d, i, v, FALSE)
 =============================================================================
